@@ -30,6 +30,7 @@ def run(ctx):
     ctx.each(r20g, ctx, repo)
     ctx.each(r20i, ctx, repo)
     ctx.each(r20j, ctx, repo)
+    ctx.each(r20l, ctx, repo)
     ctx.each(flowalg.accumulator_rule, ctx, repo, "R20h", [("model", "Population.popsize")], 2, "the population size used as aggregation weight")
     # formula outputs (`{'name': 'expr'}`) read compartments through __getitem__ with an array of time indices: the accessors must keep the time axis
     from .c01 import r01g
@@ -579,3 +580,32 @@ def r20j(ctx, repo):
     ctx.require(n >= 3, "R20j: fewer link accumulations in PlotData.__init__ (%d) than confirmed (3)" % n)
     direct = [s_ for s_ in own_nodes(fi.node) if isinstance(s_, ast.Assign) and ast.unparse(s_.targets[0]) == "data_dict[output_label]" and ast.unparse(s_.value) == "vars[0].vals"]
     ctx.check(len(direct) >= 2, "R20j", fi, direct[0] if direct else fi.node, "stocks and parameters are read from their own values", "compartments / characteristics / parameters are not reported from vars[0].vals", stmt_text="direct-vals")
+
+
+def r20l(ctx, repo):
+    from ..core import boolx as B
+    from ..core.cfg import branch_guards
+
+    ctx.rule("R20l", "a cascade stage is the set of compartments its constituents expand to: ProjectFramework.get_charac_includes (used by validate_cascade to decide nesting and by the cascade validation of the framework) wraps a single name into a list, and for every element either extends the result by the recursive expansion of that characteristic's components (when the element is a characteristic) or appends the element itself (a compartment) - nothing is dropped and nothing but the result list is returned")
+    fi = repo.func("framework", "ProjectFramework.get_charac_includes")
+    me, inc = fi.params[0], fi.params[1]
+    loops = [l for l in own_nodes(fi.node) if isinstance(l, ast.For) and ast.unparse(l.iter) == inc and isinstance(l.target, ast.Name)]
+    ctx.require(len(loops) == 1, "R20l: the loop over the requested names was not found in get_charac_includes")
+    lp, x = loops[0], loops[0].target.id
+    rets = [r for r in own_nodes(fi.node) if isinstance(r, ast.Return) and r.value is not None]
+    ctx.require(len(rets) == 1 and isinstance(rets[0].value, ast.Name), "R20l: get_charac_includes does not return one result list")
+    out = rets[0].value.id
+    rec = [s_ for s_ in ast.walk(lp) if isinstance(s_, (ast.AugAssign, ast.Expr)) and any(isinstance(c, ast.Call) and ast.unparse(c.func) == "%s.get_charac_includes" % me for c in ast.walk(s_))]
+    ok = len(rec) == 1 and ((isinstance(rec[0], ast.AugAssign) and isinstance(rec[0].op, ast.Add) and astq.is_name(rec[0].target, out)) or (isinstance(rec[0], ast.Expr) and ast.unparse(rec[0].value.func) == "%s.extend" % out))
+    if ok:
+        ok = B.equivalent(B.cond(branch_guards(rec[0], stop=lp)), B.parse_cond("%s in %s.characs.index" % (x, me)))
+        call = [c for c in ast.walk(rec[0]) if isinstance(c, ast.Call) and ast.unparse(c.func) == "%s.get_charac_includes" % me][0]
+        comp = call.args[0]
+        if isinstance(comp, ast.Name):
+            ds = [d for d in ast.walk(lp) if isinstance(d, ast.Assign) and astq.is_name(d.targets[0], comp.id)]
+            comp = ds[0].value if len(ds) == 1 else comp
+        ok = ok and ("%s.characs.at[%s, 'components']" % (me, x)) in ast.unparse(comp) and ".split(','" in ast.unparse(comp).replace('"', "'").replace("', '", "','") + "'"
+    ctx.check(ok, "R20l", fi, rec[0] if rec else lp, "a characteristic is replaced by the expansion of its components", "get_charac_includes does not extend the result by `self.get_charac_includes(<components of the characteristic>)` exactly for the names that are characteristics: nested characteristics are dropped from (or not expanded in) a cascade stage", stmt_text="expand:recurse")
+    app = [c for c in ast.walk(lp) if isinstance(c, ast.Call) and ast.unparse(c.func) == "%s.append" % out]
+    oka = len(app) == 1 and x in ast.unparse(app[0].args[0]) and B.equivalent(B.cond(branch_guards(enclosing_stmt(app[0]), stop=lp)), B.parse_cond("not (%s in %s.characs.index)" % (x, me)))
+    ctx.check(oka, "R20l", fi, enclosing_stmt(app[0]) if app else lp, "a compartment is kept as it is", "get_charac_includes does not append the name itself exactly for the names that are not characteristics", stmt_text="expand:leaf")
